@@ -1,8 +1,625 @@
-//! placeholder: this component is not built yet
+//! C16 — correspondence of `trion::uf2::write::Uf2Write` with the Lean model `Trion.Uf2` and the property
+//! oracle: an independent UF2 reader written here, checking exactly the statement of C16 on the bytes the
+//! real writer leaves in its destination after it has been dropped.
+use std::cell::RefCell;
+
+use trion::uf2::write::{NewError, Uf2Write, WriteError};
+
 use crate::common::*;
 
-pub fn run(id: &str, cx: &mut Cx)
+#[derive(Clone, Debug)]
+pub enum Dst
 {
-	cx.report.notes.push(format!("component for {id} not implemented"));
-	cx.report.oracle_fail("-", "harness component not implemented");
+	/// fixed buffer of this length, pre-filled with garbage
+	Slice(usize),
+	/// vector with this many bytes already in it
+	Vector(usize),
+}
+
+#[derive(Clone, Debug)]
+pub struct Op
+{
+	pub all: bool,
+	pub addr: u32,
+	/// the textual form sent to the model (hex / `-` / `#len,a,b`)
+	pub text: String,
+	pub data: Vec<u8>,
+	pub no_flash: bool,
+}
+
+#[derive(Clone, Debug)]
+pub struct Case
+{
+	pub fam: Option<u32>,
+	pub ps: usize,
+	pub al: usize,
+	pub dst: Dst,
+	pub ops: Vec<Op>,
+}
+
+pub fn data_of_text(s: &str) -> Option<Vec<u8>>
+{
+	if let Some(r) = s.strip_prefix('#')
+	{
+		let p: Vec<u64> = r.split(',').map(|x| x.parse::<u64>().ok()).collect::<Option<Vec<_>>>()?;
+		if p.len() != 3 {return None;}
+		Some((0..p[0]).map(|i| ((p[1] + p[2] * i) % 256) as u8).collect())
+	}
+	else {unhex(s)}
+}
+
+impl Case
+{
+	pub fn text(&self) -> String
+	{
+		let mut s = String::new();
+		match self.fam {None => s.push('-'), Some(f) => s.push_str(&format!("{f:08x}"))}
+		s.push_str(&format!(" {} {} ", self.ps, self.al));
+		match self.dst {Dst::Slice(c) => s.push_str(&format!("s{c}")), Dst::Vector(p) => s.push_str(&format!("v{p}"))}
+		for op in &self.ops
+		{
+			s.push_str(&format!(" {}:{:08x}:{}:{}", if op.all {'a'} else {'w'}, op.addr, op.text, op.no_flash as u8));
+		}
+		s
+	}
+
+	pub fn parse(s: &str) -> Option<Case>
+	{
+		let w: Vec<&str> = s.split(' ').filter(|x| !x.is_empty()).collect();
+		if w.len() < 4 {return None;}
+		let fam = if w[0] == "-" {None} else {Some(u32::from_str_radix(w[0], 16).ok()?)};
+		let ps = w[1].parse().ok()?;
+		let al = w[2].parse().ok()?;
+		let dst = if let Some(c) = w[3].strip_prefix('s') {Dst::Slice(c.parse().ok()?)}
+			else if let Some(c) = w[3].strip_prefix('v') {Dst::Vector(c.parse().ok()?)} else {return None;};
+		let mut ops = Vec::new();
+		for o in &w[4..]
+		{
+			let p: Vec<&str> = o.split(':').collect();
+			if p.len() != 4 {return None;}
+			ops.push(Op{all: p[0] == "a", addr: u32::from_str_radix(p[1], 16).ok()?, text: p[2].to_owned(), data: data_of_text(p[2])?, no_flash: p[3] == "1"});
+		}
+		Some(Case{fam, ps, al, dst, ops})
+	}
+}
+
+fn garbage(i: usize) -> u8 {(0xA5 ^ (i as u8)).wrapping_add((i >> 8) as u8)}
+fn prefill(i: usize) -> u8 {(0x5A ^ (i as u8)).wrapping_mul(3)}
+
+fn show_werr(e: &WriteError) -> String
+{
+	match e
+	{
+		WriteError::Overflow{need, have} => format!("err:ovf:{need}:{have}"),
+		WriteError::Alignment{len, align} => format!("err:aln:{len}:{align}"),
+		WriteError::Address{need, have} => format!("err:adr:{need}:{have}"),
+		WriteError::BlockCount{need, have} => format!("err:cnt:{need}:{have}"),
+	}
+}
+
+/// What the real code did: constructor result, per-operation results (a panic ends the list with `PANIC`),
+/// and the destination after the writer was dropped.
+pub struct Real
+{
+	pub new: String,
+	pub results: Vec<String>,
+	pub panicked: bool,
+	pub dst: Vec<u8>,
+}
+
+pub fn run_real(c: &Case) -> Real
+{
+	let results = RefCell::new(Vec::new());
+	let new = RefCell::new(String::new());
+	let mut buf: Vec<u8> = match c.dst
+	{
+		Dst::Slice(cap) => (0..cap).map(garbage).collect(),
+		Dst::Vector(pre) => (0..pre).map(prefill).collect(),
+	};
+	let r = guarded(||
+	{
+		let made = match c.dst
+		{
+			Dst::Slice(..) => Uf2Write::new(c.fam, c.ps, c.al, buf.as_mut_slice()),
+			Dst::Vector(..) => Uf2Write::new_vec(c.fam, c.ps, c.al, &mut buf),
+		};
+		match made
+		{
+			Err(NewError::BlockSize(b)) => *new.borrow_mut() = format!("new=err:bs:{b}"),
+			Err(NewError::Alignment{align, block_size}) => *new.borrow_mut() = format!("new=err:al:{align}:{block_size}"),
+			Ok(mut w) =>
+			{
+				*new.borrow_mut() = "new=ok".to_owned();
+				for op in &c.ops
+				{
+					let r = if op.all
+					{
+						match w.write_all(op.addr, &op.data, op.no_flash) {Ok(n) => format!("ok:{n}"), Err(e) => show_werr(&e)}
+					}
+					else
+					{
+						match w.write(op.addr, &op.data, op.no_flash) {Ok(()) => "ok:0".to_owned(), Err(e) => show_werr(&e)}
+					};
+					results.borrow_mut().push(r);
+				}
+				drop(w);
+			},
+		}
+	});
+	let panicked = r.is_err();
+	let mut results = results.into_inner();
+	if panicked {results.push("PANIC".to_owned());}
+	let mut new = new.into_inner();
+	if new.is_empty() {new = "new=PANIC".to_owned();}
+	Real{new, results, panicked, dst: buf}
+}
+
+// ---------------------------------------------------------------------------------------------------------
+// the independent reader (oracle side; shares nothing with the crate under test)
+
+#[derive(Clone, Debug)]
+pub struct RBlock
+{
+	pub flags: u32,
+	pub addr: u32,
+	pub psize: u32,
+	pub no: u32,
+	pub total: u32,
+	pub fam: u32,
+	pub data: Vec<u8>,
+}
+
+fn le(b: &[u8], o: usize) -> u32 {(b[o] as u32) | (b[o + 1] as u32) << 8 | (b[o + 2] as u32) << 16 | (b[o + 3] as u32) << 24}
+
+/// decode a UF2 byte string; `Err(reason)` if it is not a whole number of well-formed blocks
+pub fn read_uf2(bytes: &[u8]) -> Result<Vec<RBlock>, String>
+{
+	if bytes.len() % 512 != 0 {return Err(format!("length {} is not a multiple of 512", bytes.len()));}
+	let mut out = Vec::new();
+	for (k, b) in bytes.chunks(512).enumerate()
+	{
+		if le(b, 0) != 0x0A32_4655 {return Err(format!("block {k}: first magic is {:08x}", le(b, 0)));}
+		if le(b, 4) != 0x9E5D_5157 {return Err(format!("block {k}: second magic is {:08x}", le(b, 4)));}
+		if le(b, 508) != 0x0AB1_6F30 {return Err(format!("block {k}: final magic is {:08x}", le(b, 508)));}
+		if le(b, 16) > 476 {return Err(format!("block {k}: payload size {}", le(b, 16)));}
+		out.push(RBlock{flags: le(b, 8), addr: le(b, 12), psize: le(b, 16), no: le(b, 20), total: le(b, 24), fam: le(b, 28), data: b[32..508].to_vec()});
+	}
+	Ok(out)
+}
+
+fn round_up(n: u128, al: u128) -> u128 {if n % al == 0 {n} else {n - n % al + al}}
+
+/// the statement of C16 evaluated on what the implementation produced; returns the first violation
+pub fn oracle(c: &Case, real: &Real) -> Result<(), String>
+{
+	let valid = 1 <= c.ps && c.ps <= 476 && c.al >= 1 && c.ps % c.al == 0;
+	if real.new == "new=PANIC" {return Err("constructor panicked".to_owned());}
+	if valid != (real.new == "new=ok")
+	{
+		return Err(format!("configuration (payload {}, alignment {}) is {} but the constructor answered {}", c.ps, c.al, if valid {"valid"} else {"invalid"}, real.new));
+	}
+	let (start, written) = match c.dst
+	{
+		Dst::Slice(..) => (0usize, None),
+		Dst::Vector(pre) => (pre, Some(real.dst.len())),
+	};
+	// prefix of a pre-filled vector untouched
+	if let Dst::Vector(pre) = c.dst
+	{
+		if real.dst.len() < pre || (0..pre).any(|i| real.dst[i] != prefill(i)) {return Err("the vector's existing content was modified".to_owned());}
+	}
+	if !valid
+	{
+		// a rejected configuration appends nothing
+		let untouched = match c.dst
+		{
+			Dst::Slice(cap) => real.dst.len() == cap && (0..cap).all(|i| real.dst[i] == garbage(i)),
+			Dst::Vector(pre) => real.dst.len() == pre,
+		};
+		return if untouched {Ok(())} else {Err("rejected configuration but the destination changed".to_owned())};
+	}
+	if real.panicked {return Err(format!("the writer panicked at operation {}", real.results.len() - 1));}
+	if real.results.len() != c.ops.len() {return Err("result count".to_owned());}
+
+	// how many blocks each operation claims to have appended
+	let mut claimed: Vec<usize> = Vec::new();
+	for (op, r) in c.ops.iter().zip(real.results.iter())
+	{
+		let n = if let Some(n) = r.strip_prefix("ok:")
+		{
+			if op.all {n.parse::<usize>().unwrap()} else if op.data.is_empty() {0} else {1}
+		} else {0};
+		claimed.push(n);
+	}
+	let total: usize = claimed.iter().sum();
+	let end = start + 512 * total;
+	match written
+	{
+		Some(len) => if len != end {return Err(format!("vector holds {} bytes after the prefix, accepted writes account for {} blocks", len - start.min(len), total));},
+		None =>
+		{
+			if real.dst.len() < end {return Err("more blocks claimed than the buffer holds".to_owned());}
+			// everything beyond the accepted blocks is untouched: a rejected write appended nothing
+			if let Some(i) = (end..real.dst.len()).find(|&i| real.dst[i] != garbage(i)) {return Err(format!("byte {i} beyond the {total} accepted blocks was modified"));}
+		},
+	}
+	let blocks = read_uf2(&real.dst[start..end])?;
+	for (k, b) in blocks.iter().enumerate()
+	{
+		if b.no as usize != k {return Err(format!("block {k} carries block number {}", b.no));}
+		if b.total as usize != total {return Err(format!("block {k} carries total {} but {} blocks were written", b.total, total));}
+		match c.fam
+		{
+			Some(f) => if b.fam != f || b.flags & 0x2000 == 0 {return Err(format!("block {k}: family flag/id {:08x}/{:08x}, configured {:08x}", b.flags, b.fam, f));},
+			None => if b.flags & 0x2000 != 0 || b.fam != 0 {return Err(format!("block {k}: family flag/id present ({:08x}/{:08x}) but none configured", b.flags, b.fam));},
+		}
+	}
+	// per operation
+	let mut k = 0usize;
+	for (i, op) in c.ops.iter().enumerate()
+	{
+		let mine = &blocks[k..k + claimed[i]];
+		k += claimed[i];
+		let ok = real.results[i].starts_with("ok:");
+		let len = op.data.len() as u128;
+		// rejections demanded by the property
+		if !op.all && op.data.len() > c.ps && ok {return Err(format!("op {i}: single block of {} bytes accepted with payload size {}", op.data.len(), c.ps));}
+		if !op.all && op.data.len() % c.al != 0 && ok {return Err(format!("op {i}: block length {} not a multiple of the alignment {} accepted", op.data.len(), c.al));}
+		if op.all && len > 0 && op.addr as u128 + round_up(len, c.al as u128) > 1u128 << 32 && ok {return Err(format!("op {i}: write past the end of the address space accepted"));}
+		if !ok {continue;}
+		if op.data.is_empty()
+		{
+			if !mine.is_empty() {return Err(format!("op {i}: empty write appended a block"));}
+			continue;
+		}
+		let padded = if op.all {round_up(len, c.al as u128)} else {c.ps as u128};
+		// image of this write: psize bytes of every block at its target address
+		let mut img: std::collections::BTreeMap<u64, u8> = std::collections::BTreeMap::new();
+		for b in mine
+		{
+			let want_flags = (op.no_flash as u32) | if c.fam.is_some() {0x2000} else {0};
+			if b.flags != want_flags {return Err(format!("op {i}: flags {:08x}, expected {:08x}", b.flags, want_flags));}
+			if b.psize as usize > c.ps {return Err(format!("op {i}: payload size {} exceeds the configured {}", b.psize, c.ps));}
+			for j in 0..b.psize as usize
+			{
+				if img.insert(b.addr as u64 + j as u64, b.data[j]).is_some() {return Err(format!("op {i}: address {:#x} emitted twice", b.addr as u64 + j as u64));}
+			}
+			if b.data[b.psize as usize..].iter().any(|&x| x != 0) {return Err(format!("op {i}: data area beyond the payload size is not zero"));}
+		}
+		if img.len() as u128 != padded {return Err(format!("op {i}: {} bytes emitted, expected {} (data {} + padding)", img.len(), padded, len));}
+		for j in 0..padded as u64
+		{
+			let want = if (j as usize) < op.data.len() {op.data[j as usize]} else {0};
+			match img.get(&(op.addr as u64 + j))
+			{
+				Some(&v) if v == want => (),
+				other => return Err(format!("op {i}: address {:#x} reads {:?}, expected {:02x}", op.addr as u64 + j, other, want)),
+			}
+		}
+	}
+	Ok(())
+}
+
+// ---------------------------------------------------------------------------------------------------------
+
+fn check_case(cx: &mut Cx, c: &Case, reply: &str)
+{
+	let input = c.text();
+	let real = run_real(c);
+	let mut imp = real.new.clone();
+	for r in &real.results {imp.push(' '); imp.push_str(r);}
+	let nontrivial = real.new == "new=ok" && real.results.iter().any(|r| r.starts_with("ok:") && r != "ok:0");
+	if real.new == "new=ok" && !real.panicked
+	{
+		// written part of the destination, as the model defines it: from the start position, all accepted blocks
+		let start = match c.dst {Dst::Slice(..) => 0, Dst::Vector(pre) => pre};
+		let mut blocks = 0usize;
+		for (op, r) in c.ops.iter().zip(real.results.iter())
+		{
+			if let Some(n) = r.strip_prefix("ok:") {blocks += if op.all {n.parse::<usize>().unwrap()} else if op.data.is_empty() {0} else {1};}
+		}
+		let end = (start + 512 * blocks).min(real.dst.len());
+		let out = &real.dst[start.min(end)..end];
+		imp.push_str(&format!(" fin=ok len={} fnv={:016x}", out.len(), fnv(FNV_INIT, out)));
+	}
+	cx.report.case(if nontrivial {Some(&imp)} else {None});
+	for r in &real.results {cx.report.hit(&r[..r.len().min(7)]);}
+	cx.report.hit(if real.new == "new=ok" {"new ok"} else {"new rejected"});
+	if !cx.report.compare("model.uf2.run", &input, reply, &imp) && real.new == "new=ok" && !real.panicked && cx.report.disagreements.len() <= 3
+	{
+		// locate the first differing byte for the log
+		let dump = cx.model.ask(&format!("uf2 dump {input}"));
+		if let Some(h) = dump.split(" hex=").nth(1)
+		{
+			let m = unhex(h).unwrap_or_default();
+			let start = match c.dst {Dst::Slice(..) => 0, Dst::Vector(pre) => pre};
+			if let Some(i) = (0..m.len()).find(|&i| real.dst.get(start + i) != Some(&m[i]))
+			{
+				cx.report.notes.push(format!("{input}: first differing output byte at offset {i} (block {}, offset {:#x}): model {:02x}, implementation {:?}", i / 512, i % 512, m[i], real.dst.get(start + i)));
+			}
+		}
+	}
+	if let Err(what) = oracle(c, &real) {cx.report.oracle_fail(input, what);}
+}
+
+fn gen_data(rng: &mut Rng, len: usize) -> (String, Vec<u8>)
+{
+	if len == 0 {return ("-".to_owned(), Vec::new());}
+	if len <= 48 && rng.chance(1, 2)
+	{
+		let d: Vec<u8> = (0..len).map(|_| match rng.below(4) {0 => 0, 1 => 0xFF, _ => rng.next() as u8}).collect();
+		(hex(&d), d)
+	}
+	else
+	{
+		let (a, b) = (rng.below(256), rng.below(256));
+		let t = format!("#{len},{a},{b}");
+		let d = data_of_text(&t).unwrap();
+		(t, d)
+	}
+}
+
+fn gen_len(rng: &mut Rng, ps: usize, al: usize) -> usize
+{
+	let ps = ps.min(600).max(1);
+	let al = al.min(600).max(1);
+	let k = 2 + rng.below(3) as usize;
+	let v = match rng.below(16)
+	{
+		0 => 0,
+		1 => 1,
+		2 => al,
+		3 => al + 1,
+		4 => al.saturating_sub(1),
+		5 => ps - 1,
+		6 => ps,
+		7 => ps + 1,
+		8 => k * ps - 1,
+		9 => k * ps,
+		10 => k * ps + 1,
+		11 => k * ps + al,
+		12 => ps + al,
+		13 => (rng.below(4) as usize + 1) * al,
+		14 => ps.saturating_sub(al),
+		_ => rng.below(3 * ps as u64 + 2) as usize,
+	};
+	v.min(2000)
+}
+
+fn gen_addr(rng: &mut Rng, len: usize, al: usize) -> u32
+{
+	let al = al.max(1).min(1 << 20);
+	let aligned = if len % al == 0 {len} else {len - len % al + al} as u64;
+	let top = 1u64 << 32;
+	let v: u64 = match rng.below(12)
+	{
+		0 => 0,
+		1 => 1,
+		2 => 0x100,
+		3 => 0x1000_0000,
+		4 => top.saturating_sub(len as u64),
+		5 => top.saturating_sub(aligned),
+		6 => top.saturating_sub(aligned) + 1,
+		7 => top.saturating_sub(aligned).saturating_sub(1),
+		8 => top - 1,
+		9 => top - 1 - rng.below(1024),
+		10 => 0x2000_0000 + rng.below(0x1000) * 4,
+		_ => rng.next() & 0xFFFF_FFFF,
+	};
+	v.min(top - 1) as u32
+}
+
+fn gen_ops(rng: &mut Rng, ps: usize, al: usize, n: usize) -> Vec<Op>
+{
+	(0..n).map(|_|
+	{
+		let all = rng.chance(3, 5);
+		let len = gen_len(rng, ps, al);
+		let (text, data) = gen_data(rng, len);
+		Op{all, addr: gen_addr(rng, len, al), text, data, no_flash: rng.chance(1, 5)}
+	}).collect()
+}
+
+/// number of blocks a sequence will need if everything is accepted (only used to aim the capacity)
+fn blocks_needed(ps: usize, al: usize, ops: &[Op]) -> usize
+{
+	if ps == 0 || al == 0 {return 0;}
+	ops.iter().map(|op| if op.data.is_empty() {0} else if op.all {let a = round_up(op.data.len() as u128, al as u128) as usize; (a + ps - 1) / ps} else {1}).sum()
+}
+
+fn gen_dst(rng: &mut Rng, need: usize) -> Dst
+{
+	match rng.below(10)
+	{
+		0 => Dst::Vector(0),
+		1 => Dst::Vector(1 + rng.below(40) as usize),
+		2 => Dst::Vector(512),
+		3 => Dst::Vector(0),
+		4 => Dst::Slice(512 * need),
+		5 => Dst::Slice((512 * need).saturating_sub(1)),
+		6 => Dst::Slice(512 * need + 1 + rng.below(700) as usize),
+		7 => Dst::Slice(512 * (rng.below(need as u64 + 1) as usize)),
+		8 => Dst::Slice(512 * (rng.below(need as u64 + 1) as usize) + 511),
+		_ => Dst::Slice(rng.below(512 * need as u64 + 600) as usize),
+	}
+}
+
+fn gen_fam(rng: &mut Rng) -> Option<u32>
+{
+	match rng.below(5)
+	{
+		0 => None,
+		1 => Some(0xE48B_FF56),
+		2 => Some(0),
+		3 => Some(0xFFFF_FFFF),
+		_ => Some(rng.next() as u32),
+	}
+}
+
+pub fn run(_id: &str, cx: &mut Cx)
+{
+	cx.report.rule = "configurations: every valid (payload size 1..=476, alignment dividing it) pair, each with generated write sequences, plus all invalid shapes \
+(payload 0 / 477.. / usize::MAX, alignment 0 / non-divisor / larger / usize::MAX); operations: write and write_all with lengths {0,1,al-1,al,al+1,ps-1,ps,ps+1,k*ps-1,k*ps,k*ps+1,k*ps+al,random} \
+and addresses {0,1,0x100,flash base,2^32-len,2^32-aligned(+-1),2^32-1,random}; destinations: slice (exact / one byte short / larger / partial / arbitrary capacity, pre-filled with garbage) and vector (empty or pre-filled); \
+the destination is inspected after the writer is dropped. non-trivial = at least one block appended; distinct = distinct (results, output digest)".to_owned();
+
+	if let Some(input) = cx.replay.clone()
+	{
+		if let Some(h) = input.strip_prefix("read ")
+		{
+			let bytes = unhex(h).unwrap_or_default();
+			let reply = cx.model.ask(&format!("uf2 read {}", hex(&bytes)));
+			let mine = match read_uf2(&bytes) {Ok(bl) => show_blocks(&bl), Err(..) => "none".to_owned()};
+			cx.report.case(None);
+			cx.report.compare("model.uf2.read", &input, &reply, &mine);
+			return;
+		}
+		match Case::parse(&input)
+		{
+			Some(c) =>
+			{
+				let reply = cx.model.ask(&format!("uf2 run {}", c.text()));
+				check_case(cx, &c, &reply);
+			},
+			None => cx.report.oracle_fail(input, "unrecognised replay input"),
+		}
+		return;
+	}
+
+	let mut cases: Vec<Case> = Vec::new();
+
+	// fixed boundary cases
+	for text in [
+		"e48bff56 256 256 v0 a:10000000:#256,0,1:0 a:10000100:#1,7,0:0",
+		"- 16 16 s1024 w:00000000:#32,1,1:0",                       // F20: a block longer than the payload size
+		"- 476 4 s1024 w:00000000:#480,1,1:0",                      // F20: used to panic
+		"- 476 476 s512 w:ffffffff:#476,1,1:1 w:0:#476,1,1:0",     // single block at the top; second does not fit
+		"- 1 1 v0 a:ffffffff:aa:0 a:ffffffff:aabb:0 a:fffffffe:aabb:0",
+		"00000000 8 4 v5 a:fffffff8:#5,1,1:0 a:fffffff8:#8,1,1:0 a:fffffff9:#5,1,1:0 a:fffffffc:#5,1,1:0",
+		"- 8 4 s0 a:0:01:0 w:0:01020304:0",
+		"- 8 4 s511 a:0:01:0 w:0:01020304:0",
+		"- 8 4 s512 a:0:#9,0,1:0 a:0:#8,0,1:0 a:0:01:0",
+	]
+	{
+		cases.push(Case::parse(text).expect("fixed case"));
+	}
+
+	// all invalid configuration shapes
+	let big = [0usize, 477, 478, 512, 1 << 32, usize::MAX / 2 + 1, usize::MAX];
+	for &ps in &big
+	{
+		for &al in &[0usize, 1, 2, ps, usize::MAX]
+		{
+			for dst in [Dst::Slice(1024), Dst::Vector(3)]
+			{
+				cases.push(Case{fam: None, ps, al, dst, ops: Vec::new()});
+			}
+		}
+	}
+	for ps in [1usize, 2, 6, 255, 256, 475, 476]
+	{
+		for al in [0usize, ps + 1, 2 * ps, 477, 512, usize::MAX, usize::MAX - 1, 1 << 63]
+		{
+			cases.push(Case{fam: Some(1), ps, al, dst: Dst::Slice(512), ops: Vec::new()});
+			cases.push(Case{fam: None, ps, al, dst: Dst::Vector(0), ops: Vec::new()});
+		}
+		for al in 2..=ps.min(40)
+		{
+			if ps % al != 0 {cases.push(Case{fam: None, ps, al, dst: Dst::Slice(512), ops: Vec::new()});}
+		}
+	}
+	let n_invalid = cases.len() as u64;
+	cx.report.hit_n("fixed + invalid-configuration cases", n_invalid);
+
+	// every valid configuration
+	let reps = if cx.thorough() {12} else {2};
+	let mut n_cfg = 0u64;
+	for ps in 1..=476usize
+	{
+		for al in 1..=ps
+		{
+			if ps % al != 0 {continue;}
+			n_cfg += 1;
+			for _ in 0..reps
+			{
+				let nops = 1 + cx.rng.below(4) as usize;
+				let ops = gen_ops(&mut cx.rng, ps, al, nops);
+				let need = blocks_needed(ps, al, &ops);
+				let dst = gen_dst(&mut cx.rng, need);
+				cases.push(Case{fam: gen_fam(&mut cx.rng), ps, al, dst, ops});
+			}
+		}
+	}
+	cx.report.hit_n("valid configurations (all)", n_cfg);
+	// the RP2040 configuration and small payloads get longer histories
+	let extra = if cx.thorough() {6000} else {600};
+	for i in 0..extra
+	{
+		let (ps, al) = match i % 4
+		{
+			0 => (256, 256),
+			1 => {let ps = 1 + cx.rng.below(16) as usize; let ds: Vec<usize> = (1..=ps).filter(|d| ps % d == 0).collect(); (ps, *cx.rng.pick(&ds))},
+			2 => (476, *cx.rng.pick(&[1usize, 2, 4, 7, 14, 17, 28, 34, 68, 119, 238, 476])),
+			_ => {let ps = 1 + cx.rng.below(476) as usize; let ds: Vec<usize> = (1..=ps).filter(|d| ps % d == 0).collect(); (ps, *cx.rng.pick(&ds))},
+		};
+		let nops = 1 + cx.rng.below(9) as usize;
+		let ops = gen_ops(&mut cx.rng, ps, al, nops);
+		let need = blocks_needed(ps, al, &ops);
+		let dst = gen_dst(&mut cx.rng, need);
+		cases.push(Case{fam: gen_fam(&mut cx.rng), ps, al, dst, ops});
+	}
+	cx.report.exhaustive = false;
+
+	for chunk in cases.chunks(2048)
+	{
+		let lines: Vec<String> = chunk.iter().map(|c| format!("uf2 run {}", c.text())).collect();
+		let replies = cx.model.ask_many(&lines);
+		for (c, r) in chunk.iter().zip(replies.iter()) {check_case(cx, c, r);}
+	}
+
+	// the Lean reader and the reader of this harness agree on real output (and on damaged copies)
+	reader_cross_check(cx);
+
+	cx.report.sample(format!("{} -> {}", cases[0].text(), {let r = run_real(&cases[0]); format!("{} {}", r.new, r.results.join(" "))}));
+	cx.report.sample(format!("{} -> {}", cases[1].text(), {let r = run_real(&cases[1]); format!("{} {}", r.new, r.results.join(" "))}));
+}
+
+fn show_blocks(bl: &[RBlock]) -> String
+{
+	let mut s = format!("n={}", bl.len());
+	for b in bl
+	{
+		s.push_str(&format!(" | {:08x} {:08x} {} {} {} {:08x} {}", b.flags, b.addr, b.psize, b.no, b.total, b.fam, hex(&b.data)));
+	}
+	s
+}
+
+fn reader_cross_check(cx: &mut Cx)
+{
+	let n = if cx.thorough() {400} else {60};
+	for i in 0..n
+	{
+		let ps = 1 + cx.rng.below(476) as usize;
+		let ds: Vec<usize> = (1..=ps).filter(|d| ps % d == 0).collect();
+		let al = *cx.rng.pick(&ds);
+		let ops = gen_ops(&mut cx.rng, ps, al, 2);
+		let c = Case{fam: gen_fam(&mut cx.rng), ps, al, dst: Dst::Vector(0), ops};
+		let real = run_real(&c);
+		let mut bytes = real.dst.clone();
+		if bytes.len() > 2048 {bytes.truncate(2048);}
+		if i % 3 == 1 && !bytes.is_empty()
+		{
+			// damage one byte somewhere (magic, size field, or anywhere)
+			let at = match cx.rng.below(4) {0 => 0, 1 => 4 + cx.rng.below(4) as usize, 2 => 508 + cx.rng.below(4) as usize, _ => cx.rng.below(bytes.len() as u64) as usize};
+			let at = at.min(bytes.len() - 1);
+			bytes[at] ^= 1 << cx.rng.below(8);
+		}
+		if i % 7 == 2 {bytes.pop();}
+		let input = format!("read {}", hex(&bytes));
+		let reply = cx.model.ask(&format!("uf2 read {}", hex(&bytes)));
+		let mine = match read_uf2(&bytes) {Ok(bl) => show_blocks(&bl), Err(..) => "none".to_owned()};
+		cx.report.case(None);
+		cx.report.hit("reader cross-check");
+		cx.report.compare("model.uf2.read", &input, &reply, &mine);
+	}
 }
